@@ -455,6 +455,17 @@ func (e *Engine) LoadContracts(path string, external bool) error {
 }
 
 func (e *Engine) LoadAllContracts(verifDir string) error {
+	e.knownFailing = map[string]bool{}
+	for _, k := range loadKnown(verifDir) {
+		if k.Status != "finding" {
+			continue
+		}
+		// "<fn>/post:<tag>/*"
+		o := strings.TrimSuffix(strings.TrimSuffix(k.Obligation, "*"), "/")
+		if i := strings.Index(o, "/post:"); i > 0 {
+			e.knownFailing[o] = true
+		}
+	}
 	for _, p := range []string{"protocol", "server", "client"} {
 		f := filepath.Join(e.repo, p, "zz_verif_contracts.go")
 		if _, err := os.Stat(f); err == nil {
